@@ -115,6 +115,14 @@ Theorem bool_decode_sound : forall t b, bool_decode t = Some b -> t = bool_encod
 Proof. exact bool_decode_sound_lemma. Qed.
 Print Assumptions bool_decode_sound.
 
+(* Boolean.encode on its whole signature (bool, str of any case, anything else): what it returns is true|false and decodes to the
+   boolean the argument denotes *)
+Theorem bool_encode_any_thm : forall i t, bool_encode_any i = Some t ->
+  bool_lexical t = true /\ exists b, bool_decode t = Some b /\ t = bool_encode b /\
+    match i with BBool b' => b' = b | BStr s => lower_str s = bool_encode b | BOther => False end.
+Proof. exact bool_encode_any_lemma. Qed.
+Print Assumptions bool_encode_any_thm.
+
 (* ---------------------------------------------------------------- colours *)
 (* all 2^24 colours (a sweep over the 256 values of one channel, lifted to three channels) *)
 Theorem rgb_roundtrip : forall r g b : Z, (0 <= r <= 255)%Z -> (0 <= g <= 255)%Z -> (0 <= b <= 255)%Z ->
@@ -173,6 +181,16 @@ Theorem unit_roundtrip_refuted :
   unit_parse_pinned (unit_str_pinned (mkdec false 1 5) s_cm) = Some (mkdec false 15 0, [69;43;99;109]%N).
 Proof. exact unit_pinned_unsound. Qed.
 Print Assumptions unit_roundtrip_refuted.
+
+(* Unit.convert("px", dpi) is the truncation toward zero of value * dpi (inches) and of value * dpi * 100 / 254 (centimetres) *)
+Theorem unit_convert_in : forall d dpi px, unit_convert_px d s_in dpi = Some px -> (dexp d <= 0)%Z ->
+  px = Z.quot (dec_signed_coef d * dpi) (10 ^ (- dexp d)).
+Proof. exact unit_convert_in_lemma. Qed.
+Print Assumptions unit_convert_in.
+Theorem unit_convert_cm : forall d dpi px, unit_convert_px d s_cm dpi = Some px -> (dexp d <= 0)%Z ->
+  px = Z.quot (dec_signed_coef d * dpi * 100) (254 * 10 ^ (- dexp d)).
+Proof. exact unit_convert_cm_lemma. Qed.
+Print Assumptions unit_convert_cm.
 
 (* ---------------------------------------------------------------- the property at full strength *)
 Definition C18_full : Prop :=
